@@ -92,11 +92,29 @@ if not _m or not re.search(r"nni_ctx_(rele|close)\(ctx\);", _m.group(1)):
     missing.append("nni_ctx_open: the s_closing branch in " + _S)
 _fx_ctxopen = bool(_m and "nni_ctx_close(ctx);" in _m.group(1))
 
+# fx_ctxmark: sock_shutdown's loop over s_ctxs sets c_closed for EVERY context (before / outside the c_ref == 0 test)
+_m = re.search(r"while\s*\(\(ctx = nctx\) != NULL\)\s*\{(.*?)\n\t\}\n", _sh, re.S)
+if not _m:
+    missing.append("sock_shutdown: the loop over s_ctxs in " + _S)
+    _fx_ctxmark = False
+else:
+    _lb = _m.group(1)
+    _i_set, _i_if = _lb.find("ctx->c_closed = true;"), _lb.find("if (ctx->c_ref == 0)")
+    if _i_set < 0 or _i_if < 0:
+        missing.append("sock_shutdown: c_closed assignment / c_ref test in the context loop of " + _S)
+    _fx_ctxmark = 0 <= _i_set < _i_if
+
+# nni_msgq_close: the loop that fails the waiters covers both lists unconditionally
+_mc = _body(_mq, "nni_msgq_close", "src/core/msgqueue.c")
+_msgq_close_all = bool(re.search(r"while\s*\(\s*\(\(aio = nni_list_first\(&mq->mq_aio_getq\)\) != NULL\)\s*\|\|\s*\(\(aio = nni_list_first\(&mq->mq_aio_putq\)\) != NULL\)\s*\)\s*\{\s*nni_aio_list_remove\(aio\);\s*nni_aio_finish_error\(aio, NNG_ECLOSED\);\s*\}", _mc))
+extra_text.append("Definition C10_MSGQ_CLOSE_ALL : bool := %s.  (* msgqueue.c nni_msgq_close fails every waiting reader and writer, unconditionally (the shape Queue/MsgqModel.v MClose models) *)" % ("true" if _msgq_close_all else "false"))
+
 for _n, _v, _c in (("C10_FX_EPHOLD", _fx_ephold, "socket.c sock_shutdown waits for an endpoint another thread is closing (pinned: closes it without a hold)"),
                    ("C10_FX_EPID", _fx_epid, "dialer.c/listener.c *_init allocate the id before linking the endpoint into the socket"),
                    ("C10_FX_CTXFINI", _fx_ctxfini, "socket.c nni_ctx_rele runs ctx_fini before releasing sock_lk"),
                    ("C10_FX_LATEOP", _fx_lateop, "socket.c sock_close completes stragglers before sock_destroy: the protocol's sock_close and the upper queues' close run again"),
-                   ("C10_FX_CTXOPEN", _fx_ctxopen, "socket.c nni_ctx_open closes the context when the socket is shutting down (pinned: only releases it)")):
+                   ("C10_FX_CTXOPEN", _fx_ctxopen, "socket.c nni_ctx_open closes the context when the socket is shutting down (pinned: only releases it)"),
+                   ("C10_FX_CTXMARK", _fx_ctxmark, "socket.c sock_shutdown marks every context closed, not only the idle ones")):
     extra_text.append("Definition %s : bool := %s.  (* %s *)" % (_n, "true" if _v else "false", _c))
 
 # ---- per protocol: where the socket-level pending operations are completed, and the closed latch ----
